@@ -26,4 +26,9 @@ int cfgv_term_k;
 #define CFG_VERIF_LOOP(tag) CFG_VERIF_LOOP_##tag
 #define CFG_VERIF_LOOP_numopts __CPROVER_assigns(n) __CPROVER_loop_invariant(0 <= n && n <= cfgv_term_k) __CPROVER_decreases(cfgv_term_k - n)
 #define CFG_VERIF_LOOP_getnopt __CPROVER_assigns(i) __CPROVER_loop_invariant(i <= (unsigned int)cfgv_term_k && i <= index) __CPROVER_decreases(cfgv_term_k - (int)i)
+/* cfg_indent(): ghost cfgv_blanks counts the blanks handed to the output stream (the fprintf carrier of the unit adds to it) */
+int cfgv_blanks;
+#define CFG_VERIF_LOOP_indent __CPROVER_assigns(indent, cfgv_blanks) \
+	__CPROVER_loop_invariant(0 <= indent && indent <= __CPROVER_loop_entry(indent) && cfgv_blanks == __CPROVER_loop_entry(cfgv_blanks) + 2 * (__CPROVER_loop_entry(indent) - indent)) \
+	__CPROVER_decreases(indent)
 #endif
